@@ -94,7 +94,10 @@ def run(R, env):
         R.ob("C09.R1", "first-update-is-SHA256(type-prefix)", okh1 and const == INTERMEDIARY, "first operand of the outer hash = %s with constant %r; expected SHA-256(\"%s\") FIRST (address.Hash(typ, key) = sha256(sha256(typ) || key))" % (fmt(ups[0])[:160], const, INTERMEDIARY), fn=dk)
         K = ups[1]
         fa = [s_[2][0] for s_ in subterms(K) if s_[0] == "call" and s_[1].endswith("Argument::new_display")]
-        fl = [f for f in prog.formats if f["crate"] == CRATE and f["file"] == b.span["file"] and b.span["line"] <= f["line"] <= b.span["line"] + 25]
+        # the format template of the key: in the derivation function or in a local helper it calls
+        from engine.analysis import reachable_bodies as _rb
+        spans = [(prog.bodies[k_].span["file"], prog.bodies[k_].span["line"]) for k_ in _rb(prog, [dk]) if prog.bodies[k_].crate == CRATE]
+        fl = [f for f in prog.formats if f["crate"] == CRATE and any(f["file"] == fi and ln <= f["line"] <= ln + 25 for fi, ln in spans) and any(p.get("lit") == "/" for p in f["pieces"])]
         pieces = [p.get("lit", "{%s}" % p.get("arg")) for p in fl[0]["pieces"]] if len(fl) == 1 else None
         okk = K[0] == "call" and K[1] == "std::fmt::format" and fa == [("chan",), ("sender",)] and pieces == ["{0}", "/", "{1}"]
         if not okk:
